@@ -326,7 +326,12 @@ def oracle_fresh(case):
         return Info(nt=True, classes=["loads-empty"])
     cfg = Config(version=case["version"])
     seen = set()
-    for _ in range(case["n"]):
+    import random
+    rng_state = random.getstate()
+    for k in range(case["n"]):
+        if k % 50 == 0:
+            # applications (and test-suites) reseed the global generator: ids must stay fresh
+            random.seed(12345)
         if case["via"] == "dumps":
             msg = json.loads(J.dumps([], "m", rpcid=case["rpcid"], version=case["version"], config=cfg))
         else:
@@ -337,6 +342,7 @@ def oracle_fresh(case):
         if rid in seen:
             fail("C14/fresh-id", "generated id %r repeated within %d calls" % (rid, case["n"]))
         seen.add(rid)
+    random.setstate(rng_state)
     return Info(nt=True, classes=["fresh-id-uniqueness"])
 
 
